@@ -89,9 +89,6 @@ struct SIMDVector<double, simd_abi::avx512> {
             if (maska[i] == -1) {
                 a[Size - i - 1] = ((const scalar_value_type*)&value)[Size - i - 1];
             }
-            else {
-                a[Size - i - 1] = 0;
-            }
         }
         unused(Aligned);
 #endif
@@ -411,9 +408,6 @@ struct SIMDVector<double, simd_abi::avx> {
             if (maska[i] == -1) {
                 a[Size - i - 1] = ((const scalar_value_type*)&value)[Size - i - 1];
             }
-            else {
-                a[Size - i - 1] = 0;
-            }
         }
         unused(Aligned);
 #endif
@@ -710,9 +704,6 @@ struct SIMDVector<double, simd_abi::sse> {
         for (FASTOR_INDEX i=0; i<Size; ++i) {
             if (maska[i] == -1) {
                 a[Size - i - 1] = ((const scalar_value_type*)&value)[Size - i - 1];
-            }
-            else {
-                a[Size - i - 1] = 0;
             }
         }
         unused(Aligned);
